@@ -175,6 +175,188 @@ def matches(items, s, full=True):
     return m(0, 0)
 
 
+# ---------------------------------------------------------------------------------------------
+# automata: language inclusion between two patterns (ASCII alphabet 0..127)
+# ---------------------------------------------------------------------------------------------
+
+ALPHABET = frozenset(range(128))
+
+
+class NFA:
+    def __init__(self):
+        self.n = 0
+        self.eps = {}
+        self.trans = {}  # state -> list of (frozenset(chars), target)
+
+    def new(self):
+        self.n += 1
+        return self.n - 1
+
+    def add_eps(self, a, b):
+        self.eps.setdefault(a, set()).add(b)
+
+    def add(self, a, chars, b):
+        self.trans.setdefault(a, []).append((frozenset(chars), b))
+
+
+def _build(nfa, items, start):
+    """Thompson construction; returns the end state.  Anchors are only legal at the ends and are
+    handled by the caller (strip_anchors)."""
+    cur = start
+    for it in items:
+        k = it[0]
+        if k == "char":
+            nxt = nfa.new()
+            nfa.add(cur, it[1] & ALPHABET, nxt)
+            cur = nxt
+        elif k == "group":
+            cur = _build(nfa, it[2], cur)
+        elif k == "branch":
+            end = nfa.new()
+            for b in it[1]:
+                s0 = nfa.new()
+                nfa.add_eps(cur, s0)
+                e0 = _build(nfa, b, s0)
+                nfa.add_eps(e0, end)
+            cur = end
+        elif k == "rep":
+            lo, hi, sub = it[1], it[2], it[3]
+            for _ in range(lo):
+                cur = _build(nfa, sub, cur)
+            if hi is None:
+                loop_s = nfa.new()
+                nfa.add_eps(cur, loop_s)
+                loop_e = _build(nfa, sub, loop_s)
+                nfa.add_eps(loop_e, loop_s)
+                cur = loop_s
+            else:
+                if hi - lo > 64:
+                    raise RegexUnsupported("bounded repeat too large")
+                end = nfa.new()
+                nfa.add_eps(cur, end)
+                for _ in range(hi - lo):
+                    cur = _build(nfa, sub, cur)
+                    nfa.add_eps(cur, end)
+                cur = end
+        elif k == "at":
+            raise RegexUnsupported("anchor inside a pattern")
+        else:
+            raise RegexUnsupported(k)
+    return cur
+
+
+def strip_anchors(items):
+    a0 = anchored_start(items)
+    a1 = anchored_end(items)
+    core = items[(1 if a0 else 0) : (len(items) - 1 if a1 else len(items))]
+    return core, a0, a1
+
+
+ANY_STAR = [("rep", 0, None, [("char", set(ALPHABET))])]
+
+
+def language_items(items, mode="fullmatch"):
+    """Item sequence whose *full-match* language is the set of strings accepted by re.<mode>(pattern, s)."""
+    core, a0, a1 = strip_anchors(items)
+    if mode == "fullmatch":
+        return core
+    if mode == "match":
+        return core + ([] if a1 else ANY_STAR)
+    if mode == "search":
+        return ([] if a0 else ANY_STAR) + core + ([] if a1 else ANY_STAR)
+    raise ValueError(mode)
+
+
+class DFA:
+    def __init__(self, items):
+        nfa = NFA()
+        s0 = nfa.new()
+        end = _build(nfa, items, s0)
+        self.nfa = nfa
+        self.accept_state = end
+        self.start = self._closure({s0})
+
+    def _closure(self, states):
+        stack = list(states)
+        out = set(states)
+        while stack:
+            x = stack.pop()
+            for y in self.nfa.eps.get(x, ()):
+                if y not in out:
+                    out.add(y)
+                    stack.append(y)
+        return frozenset(out)
+
+    def step(self, state, ch):
+        nxt = set()
+        for x in state:
+            for chars, t in self.nfa.trans.get(x, ()):
+                if ch in chars:
+                    nxt.add(t)
+        return self._closure(nxt)
+
+    def accepting(self, state):
+        return self.accept_state in state
+
+    def classes(self):
+        sets = set()
+        for lst in self.nfa.trans.values():
+            for chars, _ in lst:
+                sets.add(chars)
+        return sets
+
+
+def _partition(sets):
+    """Partition of the alphabet into blocks on which every char set is constant; returns one representative per block."""
+    blocks = {}
+    for c in ALPHABET:
+        sig = tuple(c in s for s in sets)
+        blocks.setdefault(sig, c)
+    return sorted(blocks.values())
+
+
+def included(items_a, items_b, max_states=20000):
+    """L(a) subset of L(b) (both as full-match languages)?  -> (True, None) or (False, witness string)."""
+    A, B = DFA(items_a), DFA(items_b)
+    reps = _partition(list(A.classes() | B.classes()))
+    # prefer printable representatives for readable witnesses
+    start = (A.start, B.start)
+    seen = {start: None}
+    queue = [start]
+    qi = 0
+    while qi < len(queue):
+        sa, sb = queue[qi]
+        qi += 1
+        if A.accepting(sa) and not B.accepting(sb):
+            # reconstruct witness
+            w = []
+            cur = (sa, sb)
+            while seen[cur] is not None:
+                prev, ch = seen[cur]
+                w.append(chr(ch))
+                cur = prev
+            return False, "".join(reversed(w))
+        for ch in reps:
+            na = A.step(sa, ch)
+            if not na:
+                continue
+            nb = B.step(sb, ch)
+            nxt = (na, nb)
+            if nxt not in seen:
+                seen[nxt] = ((sa, sb), ch)
+                queue.append(nxt)
+                if len(seen) > max_states:
+                    raise RegexUnsupported("product automaton too large")
+    return True, None
+
+
+def all_end_with(items, ch):
+    """Every string of the (full-match) language ends with character ch (and the language has no empty string)."""
+    core, _, _ = strip_anchors(items)
+    ok, w = included(core, ANY_STAR + [("char", {ord(ch)})])
+    return ok
+
+
 def group_capture(items, s, gid, full=False):
     """Text captured by group gid when matching `items` against s with re.match semantics
     (greedy, first match).  Implemented by trying the real `re` module on the *pattern text* is
